@@ -86,6 +86,9 @@ pub async fn run_life(log: &Log, sched: &Sched, cfg: &LifeCfg, schedule: &[Strin
         });
     }
     quiesce().await;
+    // the stream with the blocked reader has usually received data before (the receive task has dispatched a data
+    // frame to it and the reader has consumed it)
+    if stream.is_some() && cfg.wlen % 2 == 0 { let id = if client { sid } else { 1 }; rg.inp.push(&frame_bytes(2, id, b"some data before the end")); quiesce().await; }
     rg.out.take_wlog(); rg.out.take_record();
 
     // --- the concurrent writer and the closer -------------------------------------------------
